@@ -229,6 +229,23 @@ def run(ctx):
         ctx.check("R22.3", f"{fi.key}::loop range covers the global sample count",
                   tot in (f"len({seedlist})", "n_samples") and (tot != "n_samples" or any("spawn_sseq(n_samples)" in src(x) for x in walk_no_nested(fi.node))), f"shareRange({tot}, ...)", fi, lp)
     ds = m.func("nifty.cl.minimization.kl_energies", "draw_samples")
-    body = src(ds.node)
-    ctx.check("R22.3", f"{ds.key}::mirrored pairs share one seed (each seed duplicated in place)",
-              "[[ss] * 2 for ss in sseq]" in body and "neg = mirror_samples and i % 2 != 0" in body and "if not neg or y is None" in body, None, ds)
+    dup = any(isinstance(n, ast.ListComp) and isinstance(n.elt, ast.BinOp) and isinstance(n.elt.op, ast.Mult)
+              and isinstance(n.elt.left, ast.List) and len(n.elt.left.elts) == 1 and isinstance(n.elt.right, ast.Constant) and n.elt.right.value == 2
+              and src(n.elt.left.elts[0]) == src(n.generators[0].target) for n in ast.walk(ds.node))
+    lp = [x for x in walk_no_nested(ds.node) if isinstance(x, ast.For) and "shareRange" in src(x.iter)]
+    negdef = redraw = False
+    if len(lp) == 1:
+        iv = src(lp[0].target)
+        negname = None
+        for st in ast.walk(lp[0]):
+            if isinstance(st, ast.Assign) and isinstance(st.value, ast.BoolOp) and isinstance(st.value.op, ast.And) \
+                    and src(st.value.values[0]) == "mirror_samples" and src(st.value.values[1]) in (f"{iv} % 2 != 0", f"{iv} % 2 == 1"):
+                negdef = True
+                negname = src(st.targets[0])
+        for st in ast.walk(lp[0]):
+            if isinstance(st, ast.If) and isinstance(st.test, ast.BoolOp) and isinstance(st.test.op, ast.Or) and negname \
+                    and src(st.test.values[0]) == f"not {negname}" and src(st.test.values[1]).endswith(" is None"):
+                redraw = True
+    ctx.check("R22.3", f"{ds.key}::mirrored pairs share one seed (each seed duplicated in place; odd positions negate; a task whose share "
+                       "starts at a mirrored position re-draws under the shared seed)", dup and negdef and redraw,
+              f"duplication {dup}, negation on odd global index {negdef}, re-draw when the partner is on another task {redraw}", ds)
